@@ -168,6 +168,17 @@ func convertToFloat(other Object) (Float, bool) {
 	return 0, false
 }
 
+// floatConvertFailed makes the result of a binary operation when
+// convertToFloat failed on the other operand: NotImplemented so that
+// the other operand can have a go, unless it is an int which is too
+// large to convert to a float
+func floatConvertFailed(other Object) (Object, error) {
+	if _, ok := other.(*BigInt); ok {
+		return nil, overflowErrorFloat
+	}
+	return NotImplemented, nil
+}
+
 func (a Float) M__neg__() (Object, error) {
 	return -a, nil
 }
@@ -184,7 +195,7 @@ func (a Float) M__add__(other Object) (Object, error) {
 	if b, ok := convertToFloat(other); ok {
 		return Float(a + b), nil
 	}
-	return NotImplemented, nil
+	return floatConvertFailed(other)
 }
 
 func (a Float) M__radd__(other Object) (Object, error) {
@@ -199,14 +210,14 @@ func (a Float) M__sub__(other Object) (Object, error) {
 	if b, ok := convertToFloat(other); ok {
 		return Float(a - b), nil
 	}
-	return NotImplemented, nil
+	return floatConvertFailed(other)
 }
 
 func (a Float) M__rsub__(other Object) (Object, error) {
 	if b, ok := convertToFloat(other); ok {
 		return Float(b - a), nil
 	}
-	return NotImplemented, nil
+	return floatConvertFailed(other)
 }
 
 func (a Float) M__isub__(other Object) (Object, error) {
@@ -217,7 +228,7 @@ func (a Float) M__mul__(other Object) (Object, error) {
 	if b, ok := convertToFloat(other); ok {
 		return Float(a * b), nil
 	}
-	return NotImplemented, nil
+	return floatConvertFailed(other)
 }
 
 func (a Float) M__rmul__(other Object) (Object, error) {
@@ -235,7 +246,7 @@ func (a Float) M__truediv__(other Object) (Object, error) {
 		}
 		return Float(a / b), nil
 	}
-	return NotImplemented, nil
+	return floatConvertFailed(other)
 }
 
 func (a Float) M__rtruediv__(other Object) (Object, error) {
@@ -245,7 +256,7 @@ func (a Float) M__rtruediv__(other Object) (Object, error) {
 		}
 		return Float(b / a), nil
 	}
-	return NotImplemented, nil
+	return floatConvertFailed(other)
 }
 
 func (a Float) M__itruediv__(other Object) (Object, error) {
@@ -257,7 +268,7 @@ func (a Float) M__floordiv__(other Object) (Object, error) {
 		q, _, err := floatDivMod(a, b)
 		return q, err
 	}
-	return NotImplemented, nil
+	return floatConvertFailed(other)
 }
 
 func (a Float) M__rfloordiv__(other Object) (Object, error) {
@@ -265,7 +276,7 @@ func (a Float) M__rfloordiv__(other Object) (Object, error) {
 		q, _, err := floatDivMod(b, a)
 		return q, err
 	}
-	return NotImplemented, nil
+	return floatConvertFailed(other)
 }
 
 func (a Float) M__ifloordiv__(other Object) (Object, error) {
@@ -315,7 +326,7 @@ func (a Float) M__mod__(other Object) (Object, error) {
 		_, r, err := floatDivMod(a, b)
 		return r, err
 	}
-	return NotImplemented, nil
+	return floatConvertFailed(other)
 }
 
 func (a Float) M__rmod__(other Object) (Object, error) {
@@ -323,7 +334,7 @@ func (a Float) M__rmod__(other Object) (Object, error) {
 		_, r, err := floatDivMod(b, a)
 		return r, err
 	}
-	return NotImplemented, nil
+	return floatConvertFailed(other)
 }
 
 func (a Float) M__imod__(other Object) (Object, error) {
@@ -334,14 +345,16 @@ func (a Float) M__divmod__(other Object) (Object, Object, error) {
 	if b, ok := convertToFloat(other); ok {
 		return floatDivMod(a, b)
 	}
-	return NotImplemented, None, nil
+	res, err := floatConvertFailed(other)
+	return res, None, err
 }
 
 func (a Float) M__rdivmod__(other Object) (Object, Object, error) {
 	if b, ok := convertToFloat(other); ok {
 		return floatDivMod(b, a)
 	}
-	return NotImplemented, None, nil
+	res, err := floatConvertFailed(other)
+	return res, None, err
 }
 
 // floatIsOddInteger returns whether x is an odd integer
@@ -435,14 +448,14 @@ func (a Float) M__pow__(other, modulus Object) (Object, error) {
 	if b, ok := convertToFloat(other); ok {
 		return floatPow(a, b)
 	}
-	return NotImplemented, nil
+	return floatConvertFailed(other)
 }
 
 func (a Float) M__rpow__(other Object) (Object, error) {
 	if b, ok := convertToFloat(other); ok {
 		return floatPow(b, a)
 	}
-	return NotImplemented, nil
+	return floatConvertFailed(other)
 }
 
 func (a Float) M__ipow__(other, modulus Object) (Object, error) {
